@@ -359,6 +359,22 @@ class CallMixin:
                         self.record_write(('heap', name), x.base)
                         st.heap[name] = T.store(arr, x.base, T.fresh('hv_elems', T.ARR(T.INT, s)))
                     continue
+                m = re.match(r'^map\((.*)\)$', loc)
+                if m:
+                    x, tn = self.eval(parse_expr(m.group(1)), env)
+                    for name, srt in self.map_arrays(tn):
+                        arr = self.heap_get(st, name, T.ARR(T.INT, srt))
+                        self.record_write(('heap', name), x)
+                        st.heap[name] = T.store(arr, x, T.fresh('hv_map', srt))
+                    continue
+                m = re.match(r'^maps\((.*)\)$', loc)
+                if m:
+                    tn = self.resolve_map_type(m.group(1).strip())
+                    for name, srt in self.map_arrays(tn):
+                        arr = self.heap_get(st, name, T.ARR(T.INT, srt))
+                        self.record_write(('heap', name))
+                        st.heap[name] = T.fresh('hv_maps', T.ARR(T.INT, srt))
+                    continue
                 m = re.match(r'^\*(\w+)$', loc)
                 if m:
                     # *x : everything the pointer (or the pointer inside the interface value) x designates
@@ -414,6 +430,21 @@ class CallMixin:
             except Unsupported as e:
                 self.elab_fail('%s' % e)
                 self.havoc_all_heap(st)
+
+    def map_arrays(self, tn):
+        """[(heap array name, inner sort)] of a map type"""
+        md, mv, et = self.map_names(tn)
+        out = [(md, T.AIB)]
+        for p, srt, lt in self.ty.leaves(et):
+            out.append((mv if not p else mv + '|' + '.'.join(p), T.ARR(T.INT, srt)))
+        return out
+
+    def resolve_map_type(self, text):
+        t = text.replace(' ', '')
+        for full in self.prog.types:
+            if full.replace(' ', '') == t and self.ty.kind(full) == 'map':
+                return full
+        raise Unsupported('unknown map type %s' % text)
 
     def specs_ghostfields(self):
         return getattr(self.specs, 'ghostfields', {})
@@ -747,7 +778,20 @@ class CallMixin:
                 if m:
                     x, tn = self.eval(parse_expr(m.group(1)), env0)
                     for p, srt, lt in self.ty.leaves(x.elem):
-                        allowed.setdefault(self.leaf_name('E|%s' % x.elem, p), []).append(x.base)
+                        nm_ = self.leaf_name('E|%s' % x.elem, p)
+                        if allowed.get(nm_, []) is not None:
+                            allowed.setdefault(nm_, []).append(x.base)
+                    continue
+                m = re.match(r'^map\((.*)\)$', loc)
+                if m:
+                    x, tn = self.eval(parse_expr(m.group(1)), env0)
+                    for name, srt in self.map_arrays(tn):
+                        allowed.setdefault(name, []).append(x)
+                    continue
+                m = re.match(r'^maps\((.*)\)$', loc)
+                if m:
+                    for name, srt in self.map_arrays(self.resolve_map_type(m.group(1).strip())):
+                        allowed[name] = None
                     continue
                 m = re.match(r'^\*(\w+)$', loc)
                 m2 = re.match(r'^(.*)\.\*$', loc)
@@ -812,6 +856,8 @@ class CallMixin:
             if a1 == a0:
                 continue
             keys = allowed.get(name, [])
+            if keys is None:
+                continue
             if name.startswith('F|') and '*' in allowed:
                 keys = keys + allowed['*']
             k = T.fresh('frame_k')
